@@ -92,10 +92,17 @@ def sample_gemini_params(rng, family, allow_precomputed=True, allow_instance=Tru
             out["kernel_params"] = {"gamma": choice(rng, [0.1, 0.5, 2.0])}
         elif out["kernel"] == "polynomial" and rng.random() < 0.3:
             out["kernel_params"] = {"degree": 2, "coef0": 0.5}
+        elif out["kernel"] in ("rbf", "laplacian", "polynomial", "sigmoid") and rng.random() < 0.2:
+            # a parameter dict that says "the default": empty, or the default spelled out (gamma=None is scikit-learn's default)
+            out["kernel_params"] = choice(rng, [{}, {"gamma": None}])
+        elif out["kernel"] in KERNELS and rng.random() < 0.08:
+            out["kernel_params"] = {}
     elif kind == "wass":
         ms = list(METRICS) + (["precomputed", "precomputed"] if allow_precomputed else [])
         out["metric"] = choice(rng, ms)
         out["ovo"] = rng.random() < 0.5
+        if out["metric"] in METRICS and rng.random() < 0.1:
+            out["metric_params"] = {}
     elif kind == "generic":
         r = rng.random()
         if r < 0.7 or not allow_instance:
@@ -110,6 +117,8 @@ def sample_gemini_params(rng, family, allow_precomputed=True, allow_instance=Tru
                                      (["callable:rbf", "callable:linear"] if allow_callable else []))
                 if g["kernel"] in ("rbf", "laplacian", "callable:rbf") and rng.random() < 0.4:
                     g["kernel_params"] = {"gamma": choice(rng, [0.1, 0.5, 2.0])}     # legal even with a callable (ignored, warned)
+                elif g["kernel"] in ("rbf", "laplacian", "polynomial", "sigmoid") and rng.random() < 0.25:
+                    g["kernel_params"] = choice(rng, [{}, {"gamma": None}])
             if t == "wasserstein":
                 g["metric"] = choice(rng, METRICS + (["precomputed"] if allow_precomputed else []))
             if rng.random() < 0.4:
